@@ -84,3 +84,23 @@ contract("C10.onset_sort_is_stable", file="hed/models/df_util.py", func="sort_da
          ghost={"call_requires": {"sort_values": {"kind": ["mergesort", "stable"]}}, "init": {"seen_sort_values": "False"}},
          ensures={},
          assume=["pandas: sort_values(kind='mergesort'|'stable') keeps equal keys in their given order; other kinds need not"])
+
+# C10 "definition names compare case-insensitively, the same way everywhere": the definition dictionary is keyed by the case-FOLDED name
+# (DefinitionDict.add), so the onset/offset check of a Def must ask with the case-folded name too - str.lower() answers differently for
+# names such as 'Straße'; the value part after the first '/' only decides the placeholder question
+class_model("DefEntryTV", {"takes_value": "Bool"})
+class_model("DefValidatorM", {"defs": "Map[Str,DefEntryTV]"})
+contract("C10.def_of_a_marker_looked_up_case_folded", file="hed/validator/def_validator.py", func="DefValidator._handle_onset_or_offset",
+         params={"self": "DefValidatorM", "def_tag": "HedTag"}, returns="List[Issue]", enc="native", self_class="DefValidatorM",
+         lets={"nm": "def_tag.extension.partition('/')[0]", "ph": "def_tag.extension.partition('/')[2]"},
+         ensures={
+             "C10.marker_def.known_name_with_matching_value_use_is_accepted":
+                 "implies(nm.casefold() in self.defs and self.defs[nm.casefold()].takes_value == (len(ph) > 0), len(result) == 0)",
+             "C10.marker_def.unknown_name_is_reported":
+                 "implies(nm.casefold() not in self.defs, len(result) == 1 and result[0].kind == 'ONSET_DEF_UNMATCHED'"
+                 " and result[0].code == 'TEMPORAL_TAG_ERROR' and result[0].severity == 1)",
+             "C10.marker_def.wrong_value_use_is_reported":
+                 "implies(nm.casefold() in self.defs and self.defs[nm.casefold()].takes_value != (len(ph) > 0),"
+                 " len(result) == 1 and result[0].kind == 'ONSET_PLACEHOLDER_WRONG' and result[0].code == 'TEMPORAL_TAG_ERROR'"
+                 " and result[0].severity == 1)",
+         })
